@@ -49,8 +49,8 @@ pub fn property() -> Property {
         ],
         subs: vec![prop_sub(
             "post.overlay",
-            30_000,
-            1_000_000,
+            150_000,
+            1_200_000,
             |t| {
                 graph_case(GraphCfg {
                     max_nodes: t.pick(8, 16),
